@@ -510,7 +510,8 @@ def gen_parse_random(rng: random.Random) -> str:
     return "".join(rng.choice(alpha) for _ in range(rng.randint(0, 12)))
 
 
-OBJ = ["A", "B", "C"]
+# object types; some names extend another by digits / a version suffix / an underscore: a declaration is for ITS type only
+OBJ = ["A", "B", "C", "A2", "A_v1", "B_", "Cv"]
 VAL = ["double", "float", "int", "bool", "unsigned int"]
 METHODS = ["m0", "m1", "m2", "m3", "v"]
 ENUMS = [("xAOD.Jet", "Color", ["Red", "Blue"]), ("ns", "E", ["k0", "k1", "k2"]), ("a.b.c", "Kind", ["X"])]
